@@ -328,9 +328,21 @@ Definition final_event (m : mstate) : list Z :=
    | RGoing => [93]
    end)%Z.
 
+(** the state of the scenario's static objects when the run ended (compared with the real objects' fields) *)
+Definition b2z (b : bool) : Z := if b then 1%Z else 0%Z.
+Definition digest (s : scenario) (o : objs) : list Z :=
+  (xt_code (onow o) :: 95 ::
+   map (fun f => b2z (fval f)) (firstn (sc_nflags s) (flags o)) ++
+   map tval (tracked o) ++
+   flat_map (fun l => [b2z (match l_owner l with None => false | Some _ => true end); l_depth l;
+                       Z.of_nat (length (waiting (get_notif o (l_notif l))))]) (firstn (sc_nlocks s) (locks o)) ++
+   flat_map (fun q => [Z.of_nat (length (q_buf q)); b2z (q_closed q);
+                       Z.of_nat (length (waiting (get_notif o (q_notif q))))] ++ q_buf q) (firstn (sc_nqueues s) (queues o)) ++
+   flat_map (fun c => [Z.of_nat (length (c_bufs c)); b2z (c_closed c)]) (firstn (sc_nchans s) (chans o)))%Z.
+
 Definition run_scenario (steps fuel : nat) (s : scenario) : list (list Z) :=
   let m := mrun steps fuel (init_state s) in
-  rev (trace (ob m)) ++ [final_event m].
+  rev (trace (ob m)) ++ [final_event m; digest s (ob m)].
 
 (** comparison with an observed trace *)
 Fixpoint zlist_eqb (a b : list Z) : bool :=
